@@ -10,7 +10,10 @@ token (`decodeScalar`).  Third-party behaviour appears only as explicit paramete
   `lx : Lex`  — the verdict of goccy's `lexer.Tokenize` on the text (one token? its type? is
                 its value the text itself?), which both `decodesAsNonString` (encoder) and the
                 decoder consult;
-  `libq`      — goccy's own `token.IsNeedQuoted` on the text.
+  `libq`      — goccy's own `token.IsNeedQuoted` on the text;
+  `P : IsPrint` — Go's `unicode.IsPrint` (consulted by `yamlUnprintable` since /repo fb65e27).
+                No contract on it is needed: every theorem holds for EVERY predicate P (the
+                `Quoted` of the spec quantifies over it); the driver receives the real verdicts.
 
 Emission and parsing of mappings, sequences, flow style, anchors and comments is third-party
 code treated as a transport: the theorems are about scalar classification; the rest of the
@@ -52,7 +55,7 @@ example : Quoted ⟨true, .str, true⟩ (b "+.Inf") :=
 /-- The one YAML 1.1 implicit spelling the encoder leaves PLAIN is `=` (yaml.org/type/value):
 no YAML 1.2 parser and not this package's decoder gives it a meaning, so the round trip of
 the property is unaffected; recorded so that the table above is not read as "all of 1.1". -/
-theorem C11_tables_value_plain : valueStyle ⟨true, .str, true⟩ false valueWord false = .plain := by decide
+theorem C11_tables_value_plain : valueStyle asciiPrint ⟨true, .str, true⟩ false valueWord false = .plain := by decide
 
 /-! ### the heart: what is left plain is read back as the same string -/
 
@@ -64,32 +67,32 @@ same text, typed as a string or as a non-string scalar; (hstart) the lexer types
 token's value, as a non-string scalar only if it begins with one of the bytes of `nonStringStarts`
 ("0123456789+-.~<tTfFnN", regenerated from the source).  Everything else — legacy strings,
 the four regexps, special floats, YAML 1.1 octals, underscores — is the modelled in-repo code. -/
-theorem C11_plain_is_string (lx : Lex) (libq : Bool) (s : Bytes) (multi : Bool)
+theorem C11_plain_is_string (P : IsPrint) (lx : Lex) (libq : Bool) (s : Bytes) (multi : Bool)
     (hlib : libq = false → lx.single = true ∧ lx.same = true ∧ (lx.ty = .str ∨ lx.ty.nonString = true))
     (hstart : ∀ c t, s = c :: t → nonStringStarts.contains c = false → lx.same = true →
       lx.ty.nonString = false)
-    (hp : valueStyle lx libq s multi = .plain) : decodeScalar lx.ty s = .str s := by
+    (hp : valueStyle P lx libq s multi = .plain) : decodeScalar lx.ty s = .str s := by
   obtain ⟨hd, hl⟩ := lib_of_plain _ _ hp
   obtain ⟨h1, h2, h3⟩ := hlib hl
-  exact decode_str_of_not_quoted lx s h1 h2 h3 hstart (quoteScalar_lib lx s (valueDecision_lib lx s multi hd)).2
+  exact decode_str_of_not_quoted lx s h1 h2 h3 hstart (quoteScalar_lib P lx s (valueDecision_lib P lx s multi hd)).2
 
 /-- The same for mapping KEYS (keys take `quoteScalar` too, plus forced double quotes when
 they contain a line break). -/
-theorem C11_plain_key_is_string (lx : Lex) (libq : Bool) (s : Bytes)
+theorem C11_plain_key_is_string (P : IsPrint) (lx : Lex) (libq : Bool) (s : Bytes)
     (hlib : libq = false → lx.single = true ∧ lx.same = true ∧ (lx.ty = .str ∨ lx.ty.nonString = true))
     (hstart : ∀ c t, s = c :: t → nonStringStarts.contains c = false → lx.same = true →
       lx.ty.nonString = false)
-    (hp : keyStyle lx libq s = .plain) : decodeScalar lx.ty s = .str s := by
+    (hp : keyStyle P lx libq s = .plain) : decodeScalar lx.ty s = .str s := by
   obtain ⟨hd, hl⟩ := lib_of_plain _ _ hp
   obtain ⟨h1, h2, h3⟩ := hlib hl
-  exact decode_str_of_not_quoted lx s h1 h2 h3 hstart (quoteScalar_lib lx s (keyDecision_lib lx s hd)).2
+  exact decode_str_of_not_quoted lx s h1 h2 h3 hstart (quoteScalar_lib P lx s (keyDecision_lib P lx s hd)).2
 
 -- non-vacuity: "1Gi" (a CUE number, a YAML string) and "0o8" are left plain and read back
 -- as strings; the hypotheses are met by the lexer verdict goccy really gives (one string token)
 example : decodeScalar .str (b "1Gi") = .str (b "1Gi") :=
-  C11_plain_is_string ⟨true, .str, true⟩ false (b "1Gi") false (fun _ => ⟨rfl, rfl, Or.inl rfl⟩)
+  C11_plain_is_string asciiPrint ⟨true, .str, true⟩ false (b "1Gi") false (fun _ => ⟨rfl, rfl, Or.inl rfl⟩)
     (fun _ _ _ _ _ => rfl) (by decide)
-example : keyStyle ⟨true, .str, true⟩ false (b "0o8") = .plain := by decide
+example : keyStyle asciiPrint ⟨true, .str, true⟩ false (b "0o8") = .plain := by decide
 
 /-! ### numbers, dates and YAML 1.1 octals are quoted -/
 
@@ -115,6 +118,33 @@ example : Quoted ⟨true, .str, true⟩ (b "123456789012345678901234567890") :=
   C11_numeric_quoted _ _ (by decide) ⟨rfl, Or.inr ⟨rfl, rfl⟩⟩
 example : Quoted ⟨false, .other, false⟩ (b "1:30") := C11_dates_quoted _ _ (Or.inl (by decide))
 example : Quoted ⟨true, .str, true⟩ (b "0778") := C11_dates_quoted _ _ (Or.inr (by decide))
+
+/-! ### what needs escaping is double-quoted by the in-repo code itself -/
+
+/-- For ALL strings with a rune `yamlUnprintable` rejects — C0 controls other than tab and
+line feed, DEL, NEL, LS, PS, U+FFFE/U+FFFF, invalid bytes, and (since /repo fb65e27) every rune
+other than the blank that `unicode.IsPrint` rejects: NBSP, U+FEFF, U+200B, C1 controls … — the
+decision is `strconv.Quote` (double quotes), as a value from any literal form and as a key, for
+every lexer verdict: such a string is never handed to the library (whose own quoting writes a
+Go escape inside single quotes, read back literally), never single-quoted, never a block. -/
+theorem C11_unprintable_double (P : IsPrint) (lx : Lex) (s : Bytes) (h : yamlUnprintable P s = true) :
+    (∀ multi, valueDecision P lx s multi = .double) ∧ keyDecision P lx s = .double :=
+  ⟨fun multi => valueDecision_unprintable P lx s multi h, keyDecision_unprintable P lx s h⟩
+
+/-- Single quotes (which cannot escape anything) are chosen only for strings that hold nothing
+unprintable and no line feed (since /repo c5058c4 and ae37630). -/
+theorem C11_single_quote_safe (P : IsPrint) (lx : Lex) (s : Bytes) (h : quoteScalar P lx s = .single) :
+    yamlUnprintable P s = false ∧ s.contains 10 = false :=
+  quoteScalar_single P lx s h
+
+-- non-vacuity: "# <NBSP>" (the old witness of the library-quoting defect) and "<U+FEFF>null"
+example : keyDecision asciiPrint ⟨true, .other, false⟩ [0x23, 0x20, 0xC2, 0xA0] = .double :=
+  (C11_unprintable_double asciiPrint _ _ (by decide)).2
+example : valueDecision asciiPrint ⟨true, .str, true⟩ [0xEF, 0xBB, 0xBF, 0x6E, 0x75, 0x6C, 0x6C] false = .double :=
+  (C11_unprintable_double asciiPrint _ _ (by decide)).1 false
+-- "? a" is single-quoted; "? a\nb" as a key is not (it is double-quoted)
+example : quoteScalar asciiPrint ⟨false, .other, false⟩ (b "? a") = .single := by decide
+example : keyDecision asciiPrint ⟨false, .other, false⟩ (b "? a\nb") = .double := by decide
 
 /-! ### double-quoted scalars -/
 
@@ -163,33 +193,34 @@ clip / keep) as exactly the string.  Full strength since /repo 05f5435.  What th
 and does not start with a blank.  (The other conjuncts — no line ending in a blank, nothing
 unprintable — guard the printer's blank-line padding and escaping, which are library behaviour
 outside this model; the `block` ops compare model and library on every block of a run.) -/
-theorem C11_block_roundtrip (s : Bytes) (h : blockLiteralSafe s = true) : BlockRoundTrips s :=
-  block_roundtrip s h
+theorem C11_block_roundtrip (P : IsPrint) (s : Bytes) (h : blockLiteralSafe P s = true) : BlockRoundTrips s :=
+  block_roundtrip P s h
 
 -- non-vacuity: a string with inner and trailing blank lines and an indented inner line
-example : BlockRoundTrips (b "a\n\n  b\n\n") := C11_block_roundtrip _ (by decide)
+example : BlockRoundTrips (b "a\n\n  b\n\n") := C11_block_roundtrip asciiPrint _ (by decide)
 
 /-- History, about the clearly named OLD predicate `blockLiteralSafeOld` (= the code before
 /repo 05f5435, no longer tied to the tree): the same statement … -/
-def C11_block_roundtrip_old_stmt : Prop := ∀ s : Bytes, blockLiteralSafeOld s = true → BlockRoundTrips s
+def C11_block_roundtrip_old_stmt : Prop :=
+  ∀ (P : IsPrint) (s : Bytes), blockLiteralSafeOld P s = true → BlockRoundTrips s
 
 /-- … was FALSE: "\n" was admitted, written as `|` with an empty body, and read back as "" … -/
 theorem C11_block_roundtrip_old_false : ¬ C11_block_roundtrip_old_stmt := by
   intro h
-  have h1 := h [10] block_lone_newline.1 2
+  have h1 := h asciiPrint [10] block_lone_newline.1 2
   rw [block_lone_newline.2] at h1
   cases h1
 
 /-- … and so was "\n a" (a blank line, then a line beginning with a blank, swallowed as
 indentation). -/
-theorem C11_block_indent_old_false : blockLiteralSafeOld (b "\n a") = true ∧
+theorem C11_block_indent_old_false : blockLiteralSafeOld asciiPrint (b "\n a") = true ∧
     parseBlock (emitBlock 2 (b "\n a")).1 (emitBlock 2 (b "\n a")).2 ≠ b "\n a" := by
   refine ⟨block_blank_then_indented.1, ?_⟩
   rw [block_blank_then_indented.2]; decide
 
 /-- The repaired predicate rejects the old witnesses (they take `strconv.Quote` now). -/
-theorem C11_block_rejects_old_witnesses :
-    blockLiteralSafe [10] = false ∧ blockLiteralSafe (b "\n a") = false ∧
-    blockLiteralSafe (b "\n\n") = false := block_rejects_witnesses
+theorem C11_block_rejects_old_witnesses (P : IsPrint) :
+    blockLiteralSafe P [10] = false ∧ blockLiteralSafe P (b "\n a") = false ∧
+    blockLiteralSafe P (b "\n\n") = false := block_rejects_witnesses P
 
 end CueVerif.C11
